@@ -1,6 +1,5 @@
 """C09 - CCCC nuclear-data files read back exactly what was written, in every format."""
 import io
-import math
 import os
 
 from vp.gen import c09_gen as gen
@@ -28,24 +27,30 @@ ASSUMPTIONS = [
     "strings are printable ASCII without trailing blanks (trailing blanks are padding in the format)",
 ]
 
-# Known candidate defects: the generators avoid these shapes by construction (counted with `excluded:<sig>` labels);
+# Known findings (True) and repaired defects (False): for True entries the generators avoid the shape by construction (counted with `excluded:<sig>` labels);
 # a case carrying "allow_known": true (the defect replay files) runs the shape anyway.
 EXCLUDE_KNOWN = {
-    "record/binary/frame-count-long": True,  # BinaryRecordWriter.rwLong does not add to numBytes
+    "record/binary/frame-count-long": False,  # repaired in /repo (fix: commit); shape searched again.  # BinaryRecordWriter.rwLong does not add to numBytes
     "record/ascii/int-wider-than-field": True,  # |int| >= 1e9 needs 11 characters, the field has 10
     "record/ascii/double-3-digit-exponent": True,  # |x| < 1e-99 or >= 1e100 needs 25 characters, the field has 24
-    "geodst/write/2D-1d-mesh": True,  # `0 > geomType >= 3`: 1-D mesh record never written / read
-    "fixsrc/read/unallocated-array": True,  # fixsrc.readBinary indexes into a (0,0,0,0) array
+    "geodst/write/2D-1d-mesh": False,  # repaired in /repo (fix: commit); shape searched again.  # `0 > geomType >= 3`: 1-D mesh record never written / read
+    "fixsrc/read/unallocated-array": False,  # repaired in /repo (fix: commit); shape searched again.  # fixsrc.readBinary indexes into a (0,0,0,0) array
     "isotxs/read/sub-blocked-scatter": True,
     "isotxs/write/sub-blocked-record-offsets": True,  # same shape (NSBLOK > 1): LOCA(I) ignores the sub-block records  # NSBLOK > 1: each sub-block replaces the matrix instead of extending it
-    "dlayxs/ascii/read": True,  # AsciiRecordReader does not track byteCount, DLAYXS derives the dummy-string count from it
-    "pmatrx/activation-xs-rwList-arguments": True,  # numberNeutronXS > 0: rwList called without the contained type
-    "pmatrx/read/production-matrix-order-3": True,  # order >= 3: reader indexes the empty nOrderProductionMatrix dict
-    "compxs/shape-passed-as-tuple": True,  # fileWideChiFlag / numDelayedFam > 0: rwMatrix(contents, (a, b))
+    "dlayxs/ascii/read": False,  # repaired in /repo (fix: commit); shape searched again.  # AsciiRecordReader does not track byteCount, DLAYXS derives the dummy-string count from it
+    "pmatrx/activation-xs-rwList-arguments": False,  # repaired in /repo (fix: commit); shape searched again.  # numberNeutronXS > 0: rwList called without the contained type
+    "pmatrx/read/production-matrix-order-3": False,  # repaired in /repo (fix: commit); shape searched again.  # order >= 3: reader indexes the empty nOrderProductionMatrix dict
+    "compxs/shape-passed-as-tuple": False,  # repaired in /repo (fix: commit); shape searched again.
+    "compxs/read/d1-d2-multiplier-shared": False,  # repaired in /repo (fix: commit); shape searched again.  # the D2 multiplier is stored under the key of the D1 multiplier  # fileWideChiFlag / numDelayedFam > 0: rwMatrix(contents, (a, b))
 }
 
 
 def _excluded(case, sig):
+    """True when the generators must stay away from the known shape ``sig``.  VP_C09_INCLUDE_KNOWN=all (or a comma
+    separated list of signatures) switches exclusions off for a trial run against a repaired tree."""
+    inc = os.environ.get("VP_C09_INCLUDE_KNOWN", "")
+    if inc and (inc == "all" or sig in inc.split(",")):
+        return False
     return EXCLUDE_KNOWN.get(sig, False) and not case.get("allow_known")
 
 
@@ -85,7 +90,7 @@ def _expand(f):
         for s in f["shape"]:
             n *= s
         fl = ref.Fill(f["seed"])
-        vals = {"matrix": fl.f32s, "dmatrix": fl.f64s}.get(f["t"], lambda k: fl.ints(k, -(2**31), 2**31 - 1))(n)
+        vals = {"matrix": fl.f32s, "dmatrix": fl.f64s}.get(f["t"], lambda k: fl.ints(k, -999999999, 999999999))(n)
         f = dict(f, v=vals)
     return f
 
@@ -867,30 +872,17 @@ def pmatrx_execute(case):
     md["maxScatteringOrder"] = max(orders)
     out.label("dose:%s" % case["dose"], "nuclides:%d" % min(n, 3), *["order:%d" % o for o in sorted(orders)])
     out.nontrivial = True
+    known = None
     if activation:
-        p1 = _tmp("x1")
+        known = ("pmatrx/activation-xs-rwList-arguments", "a nuclide with numberNeutronXS = 1 cannot be written")
+    elif max(orders) >= 3:
+        known = ("pmatrx/read/production-matrix-order-3", "a PMATRX file with a third-order production matrix, written by armi, cannot be read back")
+    if known:
+        # known shape (only with allow_known / on a repaired tree): a refusal anywhere in the round trip is that finding
         try:
-            ios[1](lib, p1)
-            out.check(ref.split_frames(_read(p1))[1] is None, "pmatrx/framing", "framing")
+            _lib_check(out, "pmatrx", lib, xs.pmatrx_records, ios, ascii_leg=case["ascii"])
         except OSError as exc:
-            out.fail("pmatrx/activation-xs-rwList-arguments", "a nuclide with numberNeutronXS = 1 cannot be written: %s" % str(exc)[:200])
-        finally:
-            _rm(p1)
-        return out
-    if max(orders) >= 3:
-        # known shape (only with allow_known): the writer is judged by the reference, the reader separately
-        p1 = _tmp("x1")
-        try:
-            ios[1](lib, p1)
-            frames, problem = ref.split_frames(_read(p1))
-            idx, name = _first_mismatch(frames, [(n_, ref.payload(f)) for n_, f in xs.pmatrx_records(lib)])
-            out.check(problem is None and idx is None, "pmatrx/write/%s" % name, "order-3 library written differently from the reference")
-            try:
-                ios[0](p1)
-            except OSError as exc:
-                out.fail("pmatrx/read/production-matrix-order-3", "a PMATRX file with a third-order production matrix, written by armi, cannot be read back: %s" % str(exc)[:160])
-        finally:
-            _rm(p1)
+            out.fail(known[0], "%s: %s" % (known[1], str(exc)[:160]))
         return out
     _lib_check(out, "pmatrx", lib, xs.pmatrx_records, ios, ascii_leg=case["ascii"])
     return out
@@ -993,17 +985,44 @@ def compxs_execute(case):
     out.label("order:%d" % md["maxScatteringOrder"], "scale:%s" % case["scale"])
     out.nontrivial = md["maxScatteringOrder"] != 3 or case["scale"] != 1.0
     if known:
-        p1 = _tmp("x1")
         try:
-            ios[1](lib, p1)
-            out.check(ref.split_frames(_read(p1))[1] is None, "compxs/framing", "framing")
+            _lib_check(out, "compxs", lib, xs.compxs_records, ios, ascii_leg=True)
         except OSError as exc:
             out.fail(known, "a library with fileWideChiFlag=%d numDelayedFam=%d cannot be written: %s" % (
                 md["fileWideChiFlag"], md["numDelayedFam"], str(exc).strip().splitlines()[-1][:200]))
-        finally:
-            _rm(p1)
         return out
-    _lib_check(out, "compxs", lib, xs.compxs_records, ios, ascii_leg=True)
+    ok = _lib_check(out, "compxs", lib, xs.compxs_records, ios, ascii_leg=True)
+    if ok and case.get("d1d2"):
+        # a legal COMPXS file whose first- and second-direction diffusion multipliers differ (as DIF3D writes for
+        # directional diffusion): made by patching one double of the file armi wrote; read -> write must reproduce it
+        if _excluded(case, "compxs/read/d1-d2-multiplier-shared"):
+            out.label("excluded:compxs/read/d1-d2-multiplier-shared")
+            return out
+        import struct
+
+        p1, p2 = _tmp("x1"), _tmp("x2")
+        try:
+            ios[1](lib, p1)
+            buf = bytearray(_read(p1))
+            frames, _ = ref.split_frames(bytes(buf))
+            recs = xs.compxs_records(lib)
+            gi = next(i for i, (n, _f) in enumerate(recs) if n == "4D-group-xs")
+            off = sum(8 + len(f) for f in frames[:gi]) + 4
+            fields = recs[gi][1]
+            # position of the D1 multiplier: after the primary cross sections, chi data, total scatter column and power multiplier
+            k = next(i for i, f in enumerate(fields) if f["t"] == "list" and i >= 4) if lib.regions[0].metadata["chiFlag"] == 0 else None
+            if k is not None:
+                pos = off + len(ref.payload(fields[: k + 1])) + 8
+                buf[pos : pos + 8] = struct.pack("<d", 2.5)
+                with open(p1, "wb") as f:
+                    f.write(bytes(buf))
+                back = ios[0](p1)
+                ios[1](back, p2)
+                out.check(_read(p2) == bytes(buf), "compxs/read/d1-d2-multiplier-shared",
+                          "a COMPXS file with D1 multiplier 2.5 and D2 multiplier 1.0 comes back with D1 multiplier %r after read -> write" % (
+                              back.regions[0].metadata["d1Multiplier"][0],))
+        finally:
+            _rm(p1, p2)
     return out
 
 
